@@ -16,8 +16,10 @@ import (
 	"encoding/json"
 	"fmt"
 	"runtime"
+	"strings"
 	"sync"
 	"sync/atomic"
+	"time"
 
 	"go.sia.tech/core/consensus"
 	"go.sia.tech/core/types"
@@ -571,13 +573,59 @@ func collect(b *harness.B, fam string, idx int, blocks int, each func(c *chainge
 		b.Count("accepted_blocks", 1)
 		b.SetAdd("eras", chaingen.Era(net.N, cs.Index.Height+1))
 	}
-	for done := 0; done < blocks; {
-		done += c.Grow(1+rng.IntN(10), chaingen.Plan{MaxTxns: 6})
+	stalled := 0
+	for done := 0; done < blocks && stalled < 20; {
+		n := c.Grow(1+rng.IntN(10), chaingen.Plan{MaxTxns: 6})
+		done += n
+		if n == 0 {
+			stalled++ // nothing is accepted any more (reported by the caller's comparison)
+		} else {
+			stalled = 0
+		}
 		if c.Height() > 2 && rng.IntN(8) == 0 {
 			c.RevertTip()
 		}
 	}
 	return c, kept
+}
+
+// clockIndependence: the verdict is a function of the parent state and the block, so the library has no business
+// with the machine's clock. The chain just generated (all timestamps in 2023) is generated again from the same seed
+// with every timestamp - genesis, network parameters, blocks, time locks - moved to the year 2200, far beyond any
+// tolerance around the real clock. Blocks the generator builds as valid must be treated alike in both runs: a
+// rejection class that appears only in one of them is a verdict that depends on when the code runs.
+func clockIndependence(b *harness.B, fam string, idx int, past *chaingen.Chain) {
+	orig := chaingen.GenesisTime()
+	chaingen.SetGenesisTime(time.Date(2200, 1, 1, 0, 0, 0, 0, time.UTC))
+	defer chaingen.SetGenesisTime(orig)
+	future, _ := collect(b, fam, idx, b.Pick(60, 250), func(c *chaingen.Chain, s sample) {})
+	classes := func(c *chaingen.Chain) map[string]int {
+		m := map[string]int{}
+		for k, v := range c.Stats {
+			if strings.HasPrefix(k, "gen_rejected:") {
+				m[strings.TrimPrefix(k, "gen_rejected:")] = v
+			}
+		}
+		return m
+	}
+	p, f := classes(past), classes(future)
+	b.Eval(1)
+	b.Count("clock_shifted_chains_compared", 1)
+	b.Count("clock_shifted_blocks_accepted", int(future.Height()))
+	b.Distinct("clock", fam)
+	for k, v := range f {
+		if p[k] == 0 {
+			b.Violate("C09/clock/rejection-only-on-the-future-dated-chain", fmt.Sprintf("%d block(s) built as valid are rejected with %q on the chain dated 2200 and never on the same chain dated 2023", v, k), map[string]any{"family": fam, "class": k, "height_reached_2023": past.Height(), "height_reached_2200": future.Height()})
+		}
+	}
+	for k, v := range p {
+		if f[k] == 0 {
+			b.Violate("C09/clock/rejection-only-on-the-past-dated-chain", fmt.Sprintf("%d block(s) built as valid are rejected with %q on the chain dated 2023 and never on the same chain dated 2200", v, k), map[string]any{"family": fam, "class": k})
+		}
+	}
+	if future.Height() == 0 && past.Height() > 0 {
+		b.Violate("C09/clock/future-dated-chain-does-not-grow", "no block was accepted on the chain dated 2200", map[string]any{"family": fam})
+	}
 }
 
 func run(b *harness.B) {
@@ -590,13 +638,16 @@ func run(b *harness.B) {
 			concurrent(b, c, kept)
 			continue
 		}
-		collect(b, fam, i, b.Pick(60, 250), func(c *chaingen.Chain, s sample) {
+		cPast, _ := collect(b, fam, i, b.Pick(60, 250), func(c *chaingen.Chain, s sample) {
 			purity(b, c, s)
 			provenance(b, c, s)
 			if s.valid {
 				copies(b, c, s)
 			}
 		})
+		if i == 0 {
+			clockIndependence(b, fam, i, cPast)
+		}
 	}
 	b.Sample(map[string]any{"batch_kind": map[bool]string{true: "concurrent (-race)", false: "purity/provenance/stepwise/copies"}[race]})
 }
